@@ -49,6 +49,12 @@ Theorem C02_R_perm_children : forall G ds ks ks', Permutation ks ks' -> R G (Nod
 Proof. exact R_perm_children. Qed.
 Print Assumptions C02_R_perm_children.
 
+(* the root vector is the same for any two forests that differ only in the order of siblings, at any depth *)
+Theorem C02_sibling_order_irrelevant : forall G (f f' f'' : list dtree),
+  Forall2 tperm f f' -> Permutation f' f'' -> root_R G f = root_R G f''.
+Proof. intros G f f' f'' H1 H2. exact (root_R_tperm G f f' H1 f'' H2). Qed.
+Print Assumptions C02_sibling_order_irrelevant.
+
 (* order-theoretic half of the floor claim: any convolution operator that returns entries at least as large
    as the exact truncated convolution (as flooring non-positive float results at 1e-100 does) can only raise
    every entry of every clone's vector, up to the root *)
